@@ -114,9 +114,42 @@ func c12alphabet(stride int) []c12input {
 		"P":  byz.CreatePrepareMessage(1, 0, hash).ToConsensusRawMessage(),
 		"C":  byz.CreateCommitMessage(1, 0, hash).ToConsensusRawMessage(),
 		"VC": byz.CreateViewChangeMessage(1, 1, pm).ToConsensusRawMessage(),
+		"VC0": byz.CreateViewChangeMessage(1, 1, nil).ToConsensusRawMessage(), // a vote without prepared proof
 		"NV": nv.ToConsensusRawMessage(),
 	}
-	for _, k := range []string{"PP", "P", "C", "VC", "NV"} {
+	// the same word mutations INSIDE the signed header of a vote / NEW_VIEW, re-signed by the (Byzantine) sender with its
+	// own key: the outer signature verifies, so the handlers go on to read the nested parts
+	resign := func(hdr []byte) []byte { return kit.Sig("C", c[3].ID, 1, hdr) }
+	boundary := []uint32{0, 0x7fffffff, 0x80000000, 0xfffffff8, 0xfffffffc, 0xfffffffd, 0xffffffff}
+	{
+		vch := byz.CreateViewChangeMessage(1, 1, pm).Content().SignedHeader().Raw()
+		vc0h := byz.CreateViewChangeMessage(1, 1, nil).Content().SignedHeader().Raw()
+		nvh := nv.Content().SignedHeader().Raw()
+		for name, hdr := range map[string][]byte{"VC": vch, "VC0": vc0h, "NV": nvh} {
+			for off := 0; off+4 <= len(hdr); off += 4 * stride {
+				for _, w := range boundary {
+					m := append([]byte{}, hdr...)
+					m[off], m[off+1], m[off+2], m[off+3] = byte(w), byte(w>>8), byte(w>>16), byte(w>>24)
+					var content []byte
+					func() {
+						defer func() { recover() }() // a header the builder itself cannot carry is simply not part of the alphabet
+						snd := &protocol.SenderSignatureBuilder{MemberId: c[3].ID, Signature: resign(m)}
+						if name == "NV" {
+							content = (&protocol.LeanhelixContentBuilder{Message: protocol.LEANHELIX_CONTENT_MESSAGE_NEW_VIEW_MESSAGE, NewViewMessage: &protocol.NewViewMessageContentBuilder{
+								SignedHeader: protocol.NewViewHeaderBuilderFromRaw(m), Sender: snd, Message: protocol.PreprepareContentBuilderFromRaw(nv.Content().Message().Raw())}}).Build().Raw()
+						} else {
+							content = (&protocol.LeanhelixContentBuilder{Message: protocol.LEANHELIX_CONTENT_MESSAGE_VIEW_CHANGE_MESSAGE, ViewChangeMessage: &protocol.ViewChangeMessageContentBuilder{
+								SignedHeader: protocol.ViewChangeHeaderBuilderFromRaw(m), Sender: snd}}).Build().Raw()
+						}
+					}()
+					if content != nil {
+						add(fmt.Sprintf("resigned-%s-%d-%x", name, off, w), content, blk)
+					}
+				}
+			}
+		}
+	}
+	for _, k := range []string{"PP", "P", "C", "VC", "VC0", "NV"} {
 		b := bases[k]
 		for l := 0; l < len(b.Content); l += stride {
 			add(fmt.Sprintf("trunc-%s-%d", k, l), b.Content[:l], blk)
